@@ -171,6 +171,16 @@ class Recorder:
         return self.result
 
 
+def quiet_numpy() -> None:
+    """The implementation divides by zero weights etc. on trivial cases; keep the log readable."""
+    import warnings
+
+    import numpy as np
+
+    np.seterr(all="ignore")
+    warnings.filterwarnings("ignore", category=RuntimeWarning)
+
+
 def _load_known() -> dict[str, Any]:
     if KNOWN_FINDINGS.exists():
         return json.loads(KNOWN_FINDINGS.read_text())
@@ -217,6 +227,7 @@ def main(module: Any, argv: list[str] | None = None) -> int:
     args = parser.parse_args(argv)
     seed = int(os.environ.get("VERIF_SEED", "0") or 0)
     prop = module.PROPERTY
+    quiet_numpy()
 
     if args.replay:
         return replay(module, Path(args.replay))
@@ -310,7 +321,7 @@ def main(module: Any, argv: list[str] | None = None) -> int:
             json.dumps(
                 {
                     "property": prop,
-                    "module": module.__name__,
+                    "module": f"checks.{prop.lower()}",
                     "signature": item["signature"],
                     "case": item["case"],
                     "detail": item["detail"],
